@@ -15,6 +15,8 @@ LABELSETS = {
     "big": [-3, 10**12, 7, -100, 42, 1000, 5],
     "str": ["u", "v", "w", "xx", "y", "zed", "k9"],
     "numstr": ["1", "2", "10", "9", "03", "21", "100"],  # strings that sort differently from the numbers they spell
+    "range16": list(range(16)),
+    "str16": ["n%02d" % i for i in range(8)] + ["m%d" % i for i in range(8, 16)],
 }
 LAYERS = ["a", "b", "c"]
 MD_KEYS = ["k", "col", "x"]
@@ -98,7 +100,7 @@ class Gen:
         n = r.randint(1, mx) if r.random() < 0.15 else r.randint(min(2, mx), mx)
         f = {"e": r.sample(self.U, n)}
         if k == "T":
-            f["t"] = r.randint(0, 6)
+            f["t"] = r.randint(0, 6) if not self.cfg.get("big_times") else r.choice([0, 1, 2, 3, 9, 17, 33, 1000, 2**31 - 1, 2**31, 10**12])
         if k == "M":
             f["layer"] = r.choice(self.cfg["layers"])
         return f
@@ -478,19 +480,26 @@ class Gen:
 def gen_config(rng, kind, tier, extra_ops=(), extra_weight=1.0):
     lab = rng.choice(["small", "small", "big", "str", "numstr"])
     usize = rng.randint(3, 7)
+    large = rng.random() < (0.06 if tier == "quick" else 0.12)
+    if large:
+        # a minority of worlds is larger: 10-16 labels, hyperedges of up to 9 nodes, longer histories
+        lab = rng.choice(["range16", "str16"])
+        usize = rng.randint(10, 16)
     cfg = {
         "kind": kind,
         "weighted": rng.random() < 0.5,
         "labels": lab,
         "universe": rng.sample(LABELSETS[lab], usize),
         "wtype": rng.choice(["int", "int", "dyadic"]),
-        "max_size": rng.randint(2, 5),
+        "max_size": rng.randint(6, 9) if large else rng.randint(2, 5),
         "md_density": rng.choice([0.0, 0.3, 0.7]),
         "reject_rate": rng.choice([0.0, 0.1, 0.3]),
         "profile": rng.choice(sorted(PROFILES)),
-        "length": rng.randint(5, 60 if tier == "quick" else 150),
+        "length": rng.randint(30, 90) if large else rng.randint(5, 60 if tier == "quick" else 150),
         "layers": rng.sample(LAYERS, rng.randint(1, 3)),
         "extra_ops": list(extra_ops),
+        "big_times": rng.random() < 0.2,  # temporal worlds: times far beyond the 0..6 range (two-digit, 2**31, 10**12)
+        "large": large,
     }
     w = {}
     for name in OPS[kind] + list(extra_ops):
@@ -563,6 +572,8 @@ class World:
         self.actors = [[O.new_object(self.kind, case["weighted"]), Model(self.kind, case["weighted"])]]
         self.probe_keys = []
         self._probe_seen = set()
+        ms = (case.get("cfg") or {}).get("max_size", 5)
+        self.sizes = tuple(range(0, ms + 2)) if ms > 5 else None  # the filter grid follows the largest hyperedge size
         self.log = []
         self.stats = {"ops": 0, "outcomes": {}, "probes": {}, "faults": {}}
         self.touched_after_fork = {}
@@ -599,8 +610,8 @@ class World:
 
     def compare_all(self, pid, op, outcome, exc, a):
         for j, (obj, model) in enumerate(self.actors):
-            obs = O.observe(self.kind, obj, self.U, self.probe_keys, flip=(len(self.log) + j) % 2)
-            mobs = model.observe(self.U, self.probe_keys)
+            obs = O.observe(self.kind, obj, self.U, self.probe_keys, flip=(len(self.log) + j) % 2, sizes=self.sizes)
+            mobs = model.observe(self.U, self.probe_keys, sizes=self.sizes)
             if model.hmeta_unknown:  # after clear(): adopt what is observed (DESIGN 4.5)
                 try:
                     hm = obj.get_hypergraph_metadata()
